@@ -97,12 +97,21 @@ class LuaState(object):
         self.ival = [z3.BitVec("ival%d" % (i + 1), 64) for i in range(D)]
         self.nval = [z3.BitVec("nval%d" % (i + 1), 64) for i in range(D)]
         self.bval = [z3.Bool("bval%d" % (i + 1)) for i in range(D)]
+        # Lua 5.3 number subtype: an integer slot reads as (double)ival through lua_tonumber; a float slot
+        # reads as nval, and its lua_tointeger reading is Lua's float->integer coercion (left unconstrained)
+        self.isint = [z3.Bool("isint%d" % (i + 1)) for i in range(D)]
+        self.f2i = [z3.BitVec("float2int%d" % (i + 1), 64) for i in range(D)]
         for t in self.tag:
             e.assume(z3.And(t >= 0, t <= 8))
         self.strs = {}
         self.udata = {}
         self.pushed = []
         self.meta_top = None
+
+    def number_reading(self, i):
+        """what lua_tonumber returns for number slot i (IEEE double bit pattern)"""
+        asd = z3.fpToIEEEBV(z3.fpSignedToFP(z3.RNE(), self.ival[i - 1], z3.Float64()))
+        return z3.If(self.isint[i - 1], asd, self.nval[i - 1])
 
     def slot(self, idx):
         i = conc(idx)
@@ -145,14 +154,16 @@ def install_lua(ex, st):
         if not (1 <= i <= st.n):
             return z3.BitVecVal(0, 64)
         t = st.tag[i - 1]
-        return z3.If(t == LUA_T["number"], st.ival[i - 1], z3.If(t == LUA_T["string"], ex_.fresh("str2int", 64), z3.BitVecVal(0, 64)))
+        return z3.If(t == LUA_T["number"], z3.If(st.isint[i - 1], st.ival[i - 1], st.f2i[i - 1]),
+                     z3.If(t == LUA_T["string"], ex_.fresh("str2int", 64), z3.BitVecVal(0, 64)))
 
     def tonumber(ex_, name, a, at, rt):
         i = st.slot(a[1])
         if not (1 <= i <= st.n):
             return z3.BitVecVal(0, 64)
         t = st.tag[i - 1]
-        return z3.If(t == LUA_T["number"], st.nval[i - 1], z3.If(t == LUA_T["string"], ex_.fresh("str2num", 64), z3.BitVecVal(0, 64)))
+        return z3.If(t == LUA_T["number"], st.number_reading(i),
+                     z3.If(t == LUA_T["string"], ex_.fresh("str2num", 64), z3.BitVecVal(0, 64)))
 
     def toboolean(ex_, name, a, at, rt):
         i = st.slot(a[1])
@@ -374,7 +385,8 @@ class LuaHarness(object):
         slots = []
         for i in range(st.n):
             t = lc.mval(m, st.tag[i])
-            slots.append({"type": TNAME.get(t, t), "integer": lc.mval(m, st.ival[i], 64), "boolean": lc.mval(m, st.bval[i])})
+            slots.append({"type": TNAME.get(t, t), "integer": lc.mval(m, st.ival[i], 64), "boolean": lc.mval(m, st.bval[i]),
+                          "number_subtype": "integer" if lc.mval(m, st.isint[i]) else "float"})
         return {"kernel": "lua", "function": self.lname, "depth": st.n, "stack": slots, "what": what,
                 "called": [c[1] for c in self.calls]}
 
@@ -448,11 +460,13 @@ class LuaHarness(object):
                             g = got if z3.is_bool(got) else got != 0
                             bad = g != want
                         elif p.tname in ("double", "float"):
-                            want = st.nval[slot - 1]
+                            want = st.number_reading(slot)
                             bad = got != want if got.size() == 64 else None
                         else:
+                            # an integer parameter: the claim is about integer-subtype slots (a float slot goes
+                            # through Lua's own float->integer coercion, which is not Shroud's to get right)
                             want = z3.Extract(got.size() - 1, 0, st.ival[slot - 1])
-                            bad = got != want
+                            bad = z3.And(st.isint[slot - 1], got != want)
                         if bad is not None and e.check(bad) == "sat":
                             fail = "argument '%s' is not the value held in stack slot %d" % (p.name, slot)
                             self._m = e.model(bad)
@@ -553,7 +567,11 @@ def main():
         checklib.write_evidence(PID, tier, seed, "translation_validation", {"evaluations": 1, "distinct_nontrivial": 0, "samples": []}, [], rep.wall(), 0)
         return rep.finish()
     funcs = lua_functions(b)
-    specs = [("harness.C18", "make", dict(lname=n, depth=D)) for n in sorted(funcs)]
+    def depth_for(entry):
+        # deep enough to present every parameter of the longest signature (plus self), at least D
+        need = max(len(sg.params) for sg in entry["sigs"]) + (1 if entry["cls"] is not None else 0)
+        return max(D, min(need, D + 1))
+    specs = [("harness.C18", "make", dict(lname=n, depth=depth_for(funcs[n]))) for n in sorted(funcs)]
     accs = driver.explore_many(specs, split_depth=5, time_budget_s=900 if tier == "quick" else 4000, max_decisions=50000)
     total = driver.Acc()
     runs = []
@@ -596,7 +614,7 @@ def main():
         "disagreements_checked": confirmed,
         "samples": samples[:10],
         "functions_encoded": [kw["lname"] for (_, _, kw) in specs],
-        "bounds": {"stack_depth_max": D, "type_tags": sorted(LUA_T), "values": "integer / number bit patterns full width, booleans, strings <= 3 chars"},
+        "bounds": {"stack_depth_max": {n: depth_for(funcs[n]) for n in sorted(funcs)}, "type_tags": sorted(LUA_T), "values": "integer / number bit patterns full width, booleans, strings <= 3 chars"},
         "solver": {"name": "z3 " + z3.get_version_string(), "queries": total.stats.queries, "solver_s": round(total.stats.solver_s, 2)},
         "paths": total.stats.paths,
         "reachability_twin_ok": twin_ok,
@@ -605,7 +623,8 @@ def main():
     }
     assumptions = [
         "the Lua C API is a contract model over an explicit symbolic stack (lua_gettop, lua_type, lua_to*, lua_push*, lua_newuserdata, luaL_getmetatable, lua_setmetatable, luaL_checkudata, luaL_error); Lua itself is not installed, so counterexamples are confirmed by re-executing the harness, not natively",
-        "a number slot has independent integer and float readings (lua_tointeger / lua_tonumber); strings that Lua would coerce to numbers give unconstrained values",
+        "a number slot has a Lua 5.3 subtype: an integer slot reads as ival through lua_tointeger and as (double)ival (IEEE, decided in z3's FP theory) through lua_tonumber; a float slot reads as an arbitrary double through lua_tonumber and as an unconstrained integer through lua_tointeger (Lua's own coercion); strings that Lua would coerce to numbers give unconstrained values",
+        "integer parameters are compared with the slot's integer value for integer-subtype slots only",
         "method calls use the obj:method(args) layout: slot 1 is the object, user arguments start at slot 2",
         "overload sets that Lua cannot distinguish (same count, same Lua types) are outside the domain",
         "module registration (luaopen_*) is not executed",
